@@ -129,7 +129,7 @@ def _interp(ctx):
         for nv in (4, 5, 6, 8, 12):
             for order in admissible_orders(method, nv):
                 combos.append((method, nv, order))
-    reps = ctx.pick(1, 100)
+    reps = ctx.pick(1, 1000)
     k = 0
     for rep in range(reps):
         for icombo, (method, nv, order) in enumerate(combos):
@@ -269,7 +269,7 @@ def _plot(ctx):
     except Exception as exc:
         ctx.violation(f"plot-import-raises:{type(exc).__name__}", exc_text(exc))
         return
-    for i in range(ctx.pick(12, 300)):
+    for i in range(ctx.pick(12, 3000)):
         case_id = f"plot{i}"
         if not ctx.mine(10 ** 6 + i, case_id):
             continue
